@@ -419,6 +419,7 @@ Section Total.
     intros Hclass t. induction t using ty_ind'; intros st Hr.
     1-6: destruct (sf_scalar E cfg fuel st) as (H1 & H2 & H3 & H4 & H5 & H6); eauto.
     - rewrite sf_list. destruct (IHt st Hr) as [s [st1 E1]]. rewrite E1. eauto.
+    - rewrite sf_wrap. exact (IHt st Hr).
     - rewrite sf_set. destruct (IHt st Hr) as [s [st1 E1]]. rewrite E1. eauto.
     - rewrite sf_dict. destruct (IHt st Hr) as [s [st1 E1]]. rewrite E1. eauto.
     - rewrite sf_tuple. destruct Hr as [Hok Hcl]. rewrite ty_ok_tuple in Hok. rewrite classes_of_tuple in Hcl.
